@@ -270,12 +270,10 @@ Definition valid_update (provs : list Z) (timeout freq total : Z) : bool :=
   (len provs <=? 10) && nodupb provs && (0 <=? timeout)
   && ((timeout =? 0) || (freq =? 0) || (timeout <=? freq)) && (-1 <=? total).
 
-Definition h_update_ctx (cfg : Params) (s : State) (c : CtxId) (who : Z) (provs : list Z)
-    (cap : Coins) (timeout freq total : Z) (ok : bool) : Res State :=
-  check ok ;;
-  check valid_update provs timeout freq total ;;
-  rc <- authorized s c who ;;
-  check negb (is_state rc Completed) ;;
+(* keeper.UpdateRequestContext from the service-fee cap on: shared by the message and by the
+   call of the owning module *)
+Definition update_ctx_tail (cfg : Params) (s : State) (c : CtxId) (rc : Ctx) (provs : list Z)
+    (cap : Coins) (timeout freq total : Z) : Res State :=
   rc1 <- (if coins_empty cap then Ok rc
           else capv <- one_base_coin cap ;; Ok (setc_cap rc capv)) ;;
   check (timeout <=? p_max_timeout cfg) ;;
@@ -288,6 +286,61 @@ Definition h_update_ctx (cfg : Params) (s : State) (c : CtxId) (who : Z) (provs 
   let rc4 := if 0 <? f then setc_freq rc3 f else rc3 in
   let rc5 := if total =? 0 then rc4 else setc_total rc4 total in
   Ok (put_ctx s c rc5).
+
+Definition h_update_ctx (cfg : Params) (s : State) (c : CtxId) (who : Z) (provs : list Z)
+    (cap : Coins) (timeout freq total : Z) (ok : bool) : Res State :=
+  check ok ;;
+  check valid_update provs timeout freq total ;;
+  rc <- authorized s c who ;;
+  check negb (is_state rc Completed) ;;
+  update_ctx_tail cfg s c rc provs cap timeout freq total.
+
+(* ------------------------------------------------------------------ *)
+(* the keeper API as called by the module that owns a context
+   (keeper.{Update,Pause,Start,Kill}RequestContext with CheckAuthority(..., false)).
+   There is no message, hence no ValidateBasic flag.  The keeper checks the consumer
+   only when the context carries a module name; calls aimed at a context without one
+   are not issued by any module (excluded by wf_op), so the check is modelled
+   unconditionally. *)
+Definition authorized_mod (s : State) (c : CtxId) (who : Z) : Res Ctx :=
+  rc <- of_opt (get c (ctxs s)) ;;
+  check (c_cons rc =? who) ;;
+  Ok rc.
+
+(* the response threshold requested by the module: 0 = keep; bounded by the number of
+   providers after the update; BatchResponseThreshold (c_bthr) is NOT touched here *)
+Definition thr_update (rc : Ctx) (provs : list Z) (thr : Z) : Res Ctx :=
+  let thr' := if thr =? 0 then c_thr rc else thr in
+  let provs' := match provs with [] => c_provs rc | _ => provs end in
+  check (thr' <=? len provs') ;;
+  Ok (if 0 <? thr' then setc_thr rc thr' else rc).
+
+Definition h_mod_update (cfg : Params) (s : State) (c : CtxId) (who : Z) (provs : list Z)
+    (thr : Z) (cap : Coins) (timeout freq total : Z) : Res State :=
+  rc <- authorized_mod s c who ;;
+  check negb (is_state rc Completed) ;;
+  rc0 <- (if c_mod rc =? 0 then Ok rc
+          else check valid_update provs timeout freq total ;; thr_update rc provs thr) ;;
+  update_ctx_tail cfg s c rc0 provs cap timeout freq total.
+
+Definition h_mod_pause (s : State) (c : CtxId) (who : Z) : Res State :=
+  rc <- authorized_mod s c who ;;
+  check c_rep rc ;;
+  check is_state rc Running ;;
+  Ok (put_ctx s c (setc_state rc Paused)).
+
+Definition h_mod_start (s : State) (c : CtxId) (who : Z) : Res State :=
+  rc <- authorized_mod s c who ;;
+  check is_state rc Paused ;;
+  let s1 := put_ctx s c (setc_state rc Running) in
+  if negb (has c (expq_h s1)) && negb (has c (newq_h s1))
+  then Ok (add_newq s1 c (height s1))
+  else Ok s1.
+
+Definition h_mod_kill (s : State) (c : CtxId) (who : Z) : Res State :=
+  rc <- authorized_mod s c who ;;
+  check c_rep rc ;;
+  Ok (put_ctx s c (setc_state rc Completed)).
 
 (* ------------------------------------------------------------------ *)
 (* requests, responses, fees *)
